@@ -382,3 +382,34 @@ prop(
          "binary operator / pairs of two different sets that are neither empty nor full.",
     assumptions=["indices < 64*N"],
 )
+
+prop(
+    "C10",
+    level="exploration",
+    technique="differential runtime monitor with guard bands: integer-lattice configurations classified exactly in i128 "
+              "(tangencies through Pythagorean normals/offsets) and real-valued margin sweeps across every boundary between "
+              "kinds; returned points checked against both primitives from their definitions",
+    level_text="Exploration: millions of circle-line, circle-circle and line-line configurations. Lattice side: integer "
+               "centres, radii and defining points, kind decided exactly (sign of an i128 expression), exact tangencies "
+               "constructed from Pythagorean triples and axis-parallel lines, lines given as coefficients at several "
+               "scales and as point pairs in both orders. Real side: random configurations, constructed tangencies at "
+               "arbitrary angles, and sweeps at signed margins 0, 1e-13 ... 1 around d=r, d=r1+r2, d=|r1-r2| for radius "
+               "ratios 1..1e5 under random rotation and translation. Every reported point must be within 1e-7 of both "
+               "primitives (distance to a line computed from its definition, not from the library's normalised "
+               "coefficients); the kind is asserted only at margin 0, |margin|<=1e-10 or |margin|>=1e-8 (gray in between).",
+    level_note="Trusted: the harness's exact integer classification and f64 margins (error ~1e-13 for magnitudes <= 1e3, two "
+               "orders below the guard band). Circle::position is asserted only where the absolute and the relative reading "
+               "of the tolerance agree. Coordinates of reported points stay within +-1e3.",
+    runs=[
+        dict(engine="geomon", profile="release", args=["--mode", "lattice"], group="lattice"),
+        dict(engine="geomon", profile="release", args=["--mode", "real"], group="real"),
+        dict(engine="geomon", profile="dev", args=["--mode", "real", "--cases", "200000"], group="real", label="geomon/dev/real"),
+    ],
+    floor=dict(quick=3_000_000, thorough=50_000_000),
+    counter_floors=dict(quick=dict(exact_tangencies=200_000, points_checked=2_000_000, cc_want_Two=200_000, cc_want_TangentOut=100_000,
+                                   cc_want_TangentIn=100_000, cl_want_Tangent=200_000, sweep_margins_cc=200, sweep_margins_cl=25)),
+    rule="one evaluation = one configuration handed to an intersection / classification routine and judged; "
+         "distinct_nontrivial = distinct case seeds (each seed builds one configuration family member); the counters "
+         "cl_want_* / cc_want_* / position_want_* / *_gray show how many configurations fell in each asserted class or in the gray band.",
+    assumptions=["coordinates up to 1e3, radii in [1e-2, 1e3], defining points of a line at least 1 apart, real-valued line pairs at an angle >= 1e-3 rad"],
+)
